@@ -264,6 +264,7 @@ int main(int argc, char** argv) {
     int iters = argc > 1 ? atoi(argv[1]) : 200;
     long total = 0;
     for (int it = 0; it < iters; ++it) {
+        printf("FREE-PROGRESS iteration %d\n", it); fflush(stdout);
         for (int T : {2, 3, 4}) {
             for (int n : {0, 1, 3, 7}) {
                 resetTids(); O = Obs();
@@ -446,10 +447,10 @@ int main(int argc, char** argv) {
         if (rc != 0) { run.harnessError("building the TSan race-pass harness failed: " + out.substr(0, 2000)); }
         else {
             int iters = thorough ? 300 : 40;
-            std::string cmd = "TSAN_OPTIONS='halt_on_error=0 report_signal_unsafe=0 history_size=4' timeout -s KILL 900 " + run.buildDir + "/bin/C33_tsan " + std::to_string(iters) + " 2>&1";
-            p = popen(cmd.c_str(), "r"); std::string rep;
-            while (p && fgets(buf, sizeof buf, p)) rep += buf;
-            rc = p ? pclose(p) : -1;
+            // no wall-clock limit: the pass prints a progress line per iteration and is killed only after 900 s of silence (see verif::runWatched)
+            std::string cmd = "TSAN_OPTIONS='halt_on_error=0 report_signal_unsafe=0 history_size=4' " + run.buildDir + "/bin/C33_tsan " + std::to_string(iters) + " 2>&1";
+            std::string rep; bool hung = false;
+            rc = verif::runWatched(cmd, 900, rep, hung);
             int reports = 0, freeFails = 0; long freeRuns = 0;
             std::set<std::string> sites;
             std::istringstream is(rep); std::string l; bool inRep = false; int frame = 0;
@@ -461,7 +462,7 @@ int main(int argc, char** argv) {
             }
             run.extraCoverage["race_pass"] = "{\"runs\": " + std::to_string(freeRuns) + ", \"tsan_reports\": " + std::to_string(reports) + ", \"oracle_failures\": " + std::to_string(freeFails) + "}";
             if (freeRuns == 0 && rc != 0 && rep.find("WARNING: ThreadSanitizer") == std::string::npos && rep.find("FREE-ORACLE-FAIL") == std::string::npos)
-                run.violation("free-run-hang-or-crash", "the free-running pass did not finish within 900 s or crashed (exit status " + std::to_string(rc) + "): a hang here is a deadlock or lost wake-up on the real, unscheduled code", "section=race\ncommand=" + cmd + "\n" + rep.substr(0, 2000));
+                run.violation("free-run-hang-or-crash", std::string(hung ? "the free-running pass printed no progress for 900 s: a hang here is a deadlock or lost wake-up on the real, unscheduled code" : "the free-running pass crashed") + " (wait status " + std::to_string(rc) + ")", "section=race\ncommand=" + cmd + "\n" + rep.substr(0, 2000));
             else if (freeRuns == 0) run.harnessError("TSan race pass produced no runs: " + rep.substr(0, 1500));
             if (reports > 0) {
                 std::string where; for (auto& s : sites) where += s + " | ";
